@@ -28,6 +28,8 @@ def rand_strand(rng, chroms, ends_pool, maxb):
     s = []
     for c in chroms:
         k = rng.randint(1, maxb)
+        if rng.random() < 0.03:
+            k = min(len(ends_pool), rng.randint(5, 8))
         ends = sorted(rng.sample(ends_pool, k))
         for i, e in enumerate(ends):
             s.append([rng.choice(LABELS), c, e, f"{(i + 1) * rng.choice([0.5, 1.25, 3.0, 10.1]):.4g}"])
